@@ -1418,6 +1418,25 @@ def c02_cases(ctx, rng=None):
         cases.append((case_line("caps%d" % tail, hdr * 3000, hdr, ct=tail, st=tail), "frame", 7 * 3001))
         deep = b"\x01\x00\x01\x00\x00\x01\x00" + b"\x00\x32\x00\x0a\x00\x00\x00\x00" + b"\x7f\xff\xff\xff" + b"\x01kF\x7f\xff\xff\xff" * 40
         cases.append((case_line("deep%d" % tail, deep * 50, b"", ct=tail, st=tail), "table", len(deep) * 50))
+    # very many small units at two sizes (N and 4N): a body in thousands of one-byte frames (publish on the client half,
+    # deliver on the server half), thousands of heartbeats, thousands of small pipelined methods with their replies.
+    # Every unit is reported or skipped on its own, so the cost per unit may be large; what must not happen is a cost
+    # per unit that grows with the units already seen: judged by the ratio between the two sizes (c02 below).
+    for nsmall in ((1500, 6000) if quick else (10000, 40000)):
+        for side in "cs":
+            body = bytes(rng.randrange(256) for _ in range(50)) * (nsmall // 50)
+            conv = Conv(gen_message(rng, side, 1, "publish" if side == "c" else "deliver", body=body, split=[1] * len(body), hb=False), "many-body-frames")
+            c, s = conv.stream("c"), conv.stream("s")
+            cases.append((case_line("manybody%s%d" % (side, nsmall), c, s, ct=0, st=0), "many-body-frames-%s:%d" % (side, nsmall), len(c) + len(s)))
+        hbs = Conv([Ev("c", "hb") for _ in range(nsmall)] + [Ev("s", "hb") for _ in range(nsmall)], "many-heartbeats")
+        c, s = hbs.stream("c"), hbs.stream("s")
+        cases.append((case_line("manyhb%d" % nsmall, c, s, ct=0, st=0), "many-heartbeats:%d" % nsmall, len(c) + len(s)))
+        evs = []
+        for i in range(nsmall // 4):
+            evs += [Ev("c", "method", 1 + i % 60000, 50, 10, gen_args(rng, 50, 10)), Ev("s", "method", 1 + i % 60000, 50, 11, gen_args(rng, 50, 11))]
+        many = Conv(evs, "many-methods")
+        c, s = many.stream("c"), many.stream("s")
+        cases.append((case_line("manymeth%d" % nsmall, c, s, ct=0, st=0), "many-methods:%d" % nsmall, len(c) + len(s)))
     return cases
 
 
@@ -1435,6 +1454,7 @@ def c02(ctx):
     done = 0
     reported = 0
     worst = {"alloc": 0, "us": 0}
+    scaling = {}
     while todo:
         rc, res, raw = vh(ctx, "cost", [c[0] for c in todo], extra=("-mem", "1536"), timeout=900)
         outs = [r for r in res if "start" not in r]
@@ -1445,8 +1465,12 @@ def c02(ctx):
             alloc, us = out.get("alloc", 0), out.get("us", 0)
             worst["alloc"], worst["us"] = max(worst["alloc"], alloc), max(worst["us"], us)
             why = None
+            if what.startswith("many-"):
+                scaling.setdefault(what.split(":")[0], {})[int(what.split(":")[1])] = (alloc, us, n, line, out)
             if not _ok_outcome(out["c"]) or not _ok_outcome(out["s"]):
                 why = "outcome client=%s server=%s" % (out["c"], out["s"])
+            elif what.startswith("many-"):
+                pass
             elif alloc > 64 * n + (96 << 20):
                 why = "allocated %d bytes for %d bytes of input" % (alloc, n)
             elif us > 2 * n + 500000:
@@ -1467,6 +1491,24 @@ def c02(ctx):
             todo = todo[len(outs) + 1:]
         else:
             todo = []
+    # four times the units: at most six times the cost (quadratic growth gives sixteen), plus a constant
+    ratios = {}
+    for shape, by_size in sorted(scaling.items()):
+        if len(by_size) != 2:
+            continue
+        (n1, a), (n2, b) = sorted(by_size.items())
+        ratios[shape] = {"units": [n1, n2], "alloc": [a[0], b[0]], "us": [a[1], b[1]]}
+        why = None
+        if b[0] > 6 * a[0] + (64 << 20):
+            why = "%d units allocate %d bytes, %d units %d bytes: the cost of a unit grows with the units before it" % (n1, a[0], n2, b[0])
+        elif b[1] > 8 * a[1] + 1500000:
+            why = "%d units take %d us, %d units %d us: the cost of a unit grows with the units before it" % (n1, a[1], n2, b[1])
+        if why and reported < 3:
+            reported += 1
+            r = _replay(ctx, "amqp-c02-" + shape, b[3], b[4], why)
+            r["how"] = "echo '<case>' | work/bin/vh-amqp cost -mem 1536"
+            ctx.violation(r)
+    ctx.cov["amqp_c02_scaling"] = ratios
     ctx.cov["amqp_c02_worst"] = worst
     ctx.sample({"kind": "amqp-c02", "cases": len(cases), "worst_alloc": worst["alloc"], "worst_us": worst["us"]})
     return done
